@@ -1008,7 +1008,7 @@ func ruleC14JoinSidesAdopted(c *Ctx) {
 		for i, side := range sides {
 			adopted, chained := false, false
 			for _, e := range p.Effects {
-				if e.Kind == "call" && e.Callee == "builtin:append" && len(e.Args) == 2 && strings.Contains(e.Args[0].String(), "(p:query).postProcessors") && mentions(e.Args[1], side, "postProcessors") {
+				if e.Kind == "call" && e.Callee == "builtin:append" && len(e.Args) == 2 && strings.Contains(e.Args[0].String(), "(p:"+paramNameOfType(f, "*Query")+").postProcessors") && mentions(e.Args[1], side, "postProcessors") {
 					adopted = true
 				}
 				if e.Kind == "go" {
